@@ -721,6 +721,8 @@ func checkC07(w *World, r *Report) {
 	r.Rule("R07.6", 3, "every descriptor created for a multi-output registration copies Lifetime, Constructor and Dependencies from the base descriptor")
 
 	ruleBuildPipeline(w, r, "", "", "R07.1", "", "")
+	r.Rule("R07.13", 1, "the registrations validated are the registrations the provider serves: the dependency graph (and with it what Build constructs and the provider is given) is filled from the registry's own descriptor list, not from a derived list (configured copies, synthesized bindings) the lifetime validation never sees")
+	r.Try(func() { reexport(w, r, "R07.13", func(sub *Report) { sub.Rule("R05.1", 0, ""); ruleBuildPipeline(w, sub, "R05.1", "", "", "", "") }, "R05.1") })
 
 	lc := findLifetimeCheck(w)
 	fi := lc.fn
